@@ -378,6 +378,15 @@ Proof.
   split; intros H; rewrite H; reflexivity.
 Qed.
 
+(* A cluster list that repeats a known cluster leaves every record of that cluster as it was - this is all that happens
+   in a refresh cycle whose group-list requests are never taken by the storage module (TimeoutSendStorageRequest gives
+   up after a second, the processConsumerList goroutines wait for ever); a cycle whose cluster-list request is not taken
+   is no event at all. *)
+Theorem clusters_keeps_record st cs k :
+  memz (fst k) cs = true -> c_known st (fst k) = true -> c_reg st k = true ->
+  c_reg (on_clusters st cs) k = true /\ c_groups (on_clusters st cs) k = c_groups st k.
+Proof. intros H1 H2 H3. unfold on_clusters. simpl. rewrite H1, H2, H3. split; reflexivity. Qed.
+
 Definition is_resp (e : nevent) : bool := match e with HResponse _ _ => true | _ => false end.
 
 Theorem refresh_silent mods st e : is_resp e = false ->
